@@ -5,6 +5,7 @@ import (
 	"encoding/json"
 	"fmt"
 	"regexp"
+	"time"
 
 	"go.sia.tech/core/consensus"
 	"go.sia.tech/core/types"
@@ -253,6 +254,15 @@ func (w *World) apiPolicy(n *Node) {
 	p := c.draw(0, true)
 	if w.tape.Chance(1, 2) {
 		p = c.reveal(p, false)
+	}
+	if w.tape.Chance(1, 5) {
+		// a lock time between two seconds (as one built from a wall clock is): the
+		// text forms, like the binary form, carry its second
+		frac := time.Duration(w.tape.Range(1, 999999999))
+		p = types.PolicyThreshold(1, []types.SpendPolicy{p, types.PolicyAfter(c.median.Truncate(time.Second).Add(frac))})
+		if w.tape.Chance(1, 3) {
+			p = types.PolicyAfter(c.median.Truncate(time.Second).Add(frac))
+		}
 	}
 	str := p.String()
 	var back types.SpendPolicy
